@@ -424,7 +424,145 @@ fn all_scripts(alphabet: &[Ans], max_len: usize) -> Vec<Vec<Ans>> {
     out
 }
 
+
+// ------------------------------------------------------------------- long scripts, small stacks
+
+/// One script of `n` one-byte chunks (no delimiter) read through `BufRead::read_until` on a thread
+/// with a `stack` byte stack: every `fill_buf` lends one value through `make_ref`; the mock is
+/// dropped on that thread. Runs in a child process (a stack overflow aborts).
+fn long_script(n: usize, stack: usize) -> Result<(), String> {
+    let r = std::thread::Builder::new()
+        .stack_size(stack)
+        .spawn(move || -> Result<(), String> {
+            let chunks: Vec<Ans> = (0..n).map(|i| Ans::Bytes(vec![b'a' + (i % 7) as u8])).collect();
+            let sh = script(&chunks);
+            let mut p = PlainBufRead(sh.clone(), vec![]);
+            let mut want = vec![];
+            let want_res = show(&p.read_until(b'\n', &mut want));
+            let want_log = log_of(&sh).len();
+            let sh2 = script(&chunks);
+            let mut u = mock_bufread(&sh2);
+            let mut got = vec![];
+            let got_res = show(&u.read_until(b'\n', &mut got));
+            if got_res != want_res || got != want || log_of(&sh2).len() != want_log {
+                return Err(format!("read_until over {n} chunks: plain {want_res} ({want_log} calls), mock {got_res} ({} calls)", log_of(&sh2).len()));
+            }
+            drop(u);
+            Ok(())
+        })
+        .map_err(|e| format!("cannot spawn: {e}"))?
+        .join();
+    match r {
+        Ok(r) => r,
+        Err(p) => Err(format!("panicked: {}", payload_to_string(p))),
+    }
+}
+
+fn long_script_child(n: usize, stack: usize) -> Result<(), String> {
+    use std::os::unix::process::ExitStatusExt;
+    let out = std::process::Command::new(std::env::current_exe().unwrap())
+        .arg("--long-script")
+        .arg(n.to_string())
+        .arg(stack.to_string())
+        .output()
+        .map_err(|e| format!("cannot spawn child: {e}"))?;
+    if let Some(sig) = out.status.signal() {
+        return Err(format!(
+            "the process died by signal {sig}: {}",
+            String::from_utf8_lossy(&out.stderr).lines().last().unwrap_or("")
+        ));
+    }
+    if !out.status.success() {
+        return Err(String::from_utf8_lossy(&out.stdout).trim().to_string());
+    }
+    Ok(())
+}
+
+// ------------------------------------------------- provided methods that are mocked themselves
+
+/// A provided method with clauses of its own is *mocked*: an input none of its patterns accepts
+/// fails loudly on a strict mock instead of running the upstream body; a matching input gets the
+/// configured response; in both cases no required method is called.
+fn mocked_provided_cells(t: &mut Tally<'_>) {
+    use embedded_hal::delay::DelayNs;
+    use unimock::mock::embedded_hal_1::delay::DelayNsMock;
+    use unimock::mock::std::io::{ReadMock, WriteMock};
+    let mut cell = |name: &str, got: Result<String, String>, log: Vec<String>, want_ok: Option<&str>, needle: &str| {
+        t.ctx.tick();
+        t.stats.add("traces_validated_against_impl", 1);
+        t.stats.add("transitions", 1);
+        t.stats.add("mocked_provided_cells", 1);
+        let ok = match (&got, want_ok) {
+            (Ok(v), Some(w)) => v == w,
+            (Err(msg), None) => msg.contains(needle) && msg.contains("No matching call patterns"),
+            _ => false,
+        } && log.is_empty();
+        if !ok {
+            t.ctx.violation(
+                &format!("mocked-provided:{name}"),
+                &format!("{name}: observed {got:?} with required-method calls {log:?}; expected {} and no required-method call", match want_ok { Some(w) => format!("the configured response {w}"), None => format!("a panic naming {needle} (no pattern matches)") }),
+                J::obj().set("what", name),
+            );
+        }
+    };
+    for matching_input in [true, false] {
+        // Write::write_all
+        let sh = script(&[]);
+        let (a, b) = (sh.clone(), sh.clone());
+        let got = catch(|| {
+            let mut u = Unimock::new((
+                WriteMock::write_all.each_call(matching!([1, 2])).answers(&|_, _| Ok(())),
+                WriteMock::write.each_call(matching!(_)).answers_arc(Arc::new(move |_: &mut Unimock, buf: &[u8]| respond_write(&a, buf))),
+                WriteMock::flush.each_call(matching!()).answers_arc(Arc::new(move |_: &mut Unimock| respond_flush(&b))),
+            ))
+            .no_verify_in_drop();
+            show(&u.write_all(if matching_input { &[1, 2] } else { &[3] }))
+        });
+        cell(if matching_input { "Write::write_all/matching" } else { "Write::write_all/unmatched" }, got, log_of(&sh), if matching_input { Some("Ok(())") } else { None }, "Write::write_all");
+        // Read::read_exact
+        let sh = script(&[Ans::Bytes(vec![1, 2, 3, 4])]);
+        let a = sh.clone();
+        let got = catch(|| {
+            let mut u = Unimock::new((
+                ReadMock::read_exact.each_call(matching!([0, 0])).answers(&|_, _| Ok(())),
+                ReadMock::read.each_call(matching!(_)).answers_arc(Arc::new(move |_: &mut Unimock, buf: &mut [u8]| respond_read(&a, buf))),
+            ))
+            .no_verify_in_drop();
+            let mut small = [0u8; 2];
+            let mut big = [0u8; 3];
+            show(&if matching_input { u.read_exact(&mut small) } else { u.read_exact(&mut big) })
+        });
+        cell(if matching_input { "Read::read_exact/matching" } else { "Read::read_exact/unmatched" }, got, log_of(&sh), if matching_input { Some("Ok(())") } else { None }, "Read::read_exact");
+        // DelayNs::delay_ms
+        let sh = script(&[]);
+        let a = sh.clone();
+        let got = catch(|| {
+            let mut u = Unimock::new((
+                DelayNsMock::delay_ms.each_call(matching!(5)).returns(()),
+                DelayNsMock::delay_ns.each_call(matching!(_)).answers_arc(Arc::new(move |_: &mut Unimock, ns: u32| {
+                    next(&a, format!("delay_ns({ns})"));
+                })),
+            ))
+            .no_verify_in_drop();
+            u.delay_ms(if matching_input { 5 } else { 6 });
+            "()".to_string()
+        });
+        cell(if matching_input { "DelayNs::delay_ms/matching" } else { "DelayNs::delay_ms/unmatched" }, got, log_of(&sh), if matching_input { Some("()") } else { None }, "DelayNs::delay_ms");
+    }
+}
+
 fn main() {
+    let args: Vec<String> = std::env::args().collect();
+    if args.len() == 4 && args[1] == "--long-script" {
+        silence_panics();
+        match long_script(args[2].parse().unwrap(), args[3].parse().unwrap()) {
+            Ok(()) => std::process::exit(0),
+            Err(what) => {
+                println!("{what}");
+                std::process::exit(3);
+            }
+        }
+    }
     silence_panics();
     let ctx: &'static vh::explore::Ctx = Box::leak(Box::new(vh::explore::Ctx::from_args("C20")));
     if ctx.replay.is_some() {
@@ -611,6 +749,16 @@ fn main() {
         let sh4 = script(&sc);
         let plain_dbg = format!("{}", PlainDisplay(sh4.clone()));
         t.compare("Debug/format!", &desc, mock_dbg.map(|r| (r, log_of(&sh3))), (plain_dbg, log_of(&sh4)));
+    }
+    mocked_provided_cells(&mut t);
+    // long scripts: thousands of lent chunks, released on a small stack
+    for (n, stack) in [(2_000usize, 64 * 1024usize), (12_000, 256 * 1024)] {
+        t.ctx.tick();
+        t.stats.add("traces_validated_against_impl", 1);
+        t.stats.add("transitions", n as u64);
+        if let Err(what) = long_script_child(n, stack) {
+            t.ctx.violation("long-script", &format!("BufRead::read_until over {n} lent chunks on a {stack} byte stack: {what}"), J::obj().set("long_script", n).set("stack", stack));
+        }
     }
     hal::run(&mut t, quick);
     asyncio::run(&mut t, quick);
